@@ -98,6 +98,9 @@ func build(c Case) (*openapi3.T, error) {
 		raw["servers"] = []any{M{"url": "/v1"}, M{"url": "/v10"}}
 	case "multi:/v10,/v1":
 		raw["servers"] = []any{M{"url": "/v10"}, M{"url": "/v1"}}
+	case "first:/one,/two":
+		// two unrelated servers; requests go to the first
+		raw["servers"] = []any{M{"url": "/one"}, M{"url": "/two"}}
 	case "/api/{ver}":
 		raw["servers"] = []any{M{"url": "/api/{ver}", "variables": M{"ver": M{"default": "v2"}}}}
 	default:
@@ -109,6 +112,8 @@ func build(c Case) (*openapi3.T, error) {
 // basePathRe: the server's base path as a pattern ("" when the server cannot match the request at all)
 func basePattern(server string) *regexp.Regexp {
 	switch server {
+	case "first:/one,/two":
+		return regexp.MustCompile(`^/(one|two)`)
 	case "multi:/v1,/v10", "multi:/v10,/v1":
 		return regexp.MustCompile(`^/v1(0)?`)
 	case "none":
@@ -239,6 +244,24 @@ func check(c Case) (o h.Outcome) {
 			o.Fail("wrong-method:"+c.Router, "route.Method=%q for a %q request", route.Method, c.Method)
 			return
 		}
+		// the matched server: its base path (variables aside) has to be the prefix of the request path
+		// that the rest of the template follows
+		if route.Server != nil && !strings.Contains(route.Server.URL, "{") {
+			base := route.Server.URL
+			if i := strings.Index(base, "://"); i >= 0 {
+				base = base[i+3:]
+				if j := strings.Index(base, "/"); j >= 0 {
+					base = base[j:]
+				} else {
+					base = ""
+				}
+			}
+			base = strings.TrimSuffix(base, "/")
+			if !(c.Path == base || strings.HasPrefix(c.Path, base+"/")) {
+				o.Fail("wrong-server:"+c.Router, "route.Server is %q, whose base path is not a prefix of the request path %q (declared servers: %s)", route.Server.URL, c.Path, c.Server)
+				return
+			}
+		}
 		var declared *openapi3.Operation
 		if ops := pi.Operations(); ops != nil {
 			declared = ops[c.Method]
@@ -315,7 +338,7 @@ func check(c Case) (o h.Outcome) {
 
 var tplPool = []string{"/a", "/a/{x}", "/a/b", "/{x}", "/{x}/b", "/a/{x}/b", "/a/{x}/{y}", "/{x}/{y}", "/b/{y}", "/b", "/a/b/c", "/a/{x}/c", "/{x}/b/{y}", "/a/b/{y}", "/a/p-{x}", "/a/p-b", "/a/{x}.json", "/a/b.json", "/a/{x}.{y}", "/{x}-{y}/b"}
 var methodSets = [][]string{{"GET"}, {"POST"}, {"GET", "POST"}, {"GET", "PUT", "DELETE"}}
-var servers = []string{"none", "/v1", "/api/{ver}", "http://h.example/base", "multi:/v1,/v10", "multi:/v10,/v1"}
+var servers = []string{"none", "/v1", "/api/{ver}", "http://h.example/base", "multi:/v1,/v10", "multi:/v10,/v1", "first:/one,/two"}
 var values = []string{"1", "abc", "a.b", "x-y_z~", "b", "a"}
 
 func baseOf(server string) string {
@@ -324,6 +347,8 @@ func baseOf(server string) string {
 		return "/v10" // requests go to the second server
 	case "multi:/v10,/v1":
 		return "/v1"
+	case "first:/one,/two":
+		return "/one"
 	case "none":
 		return ""
 	case "/v1":
